@@ -139,7 +139,14 @@ func genPipePlan(seed int64, o PipeGenOpts) *PipePlan {
 		}
 	}
 	if o.Filter {
-		switch r.Intn(6) {
+		p.Cfg.FilterViaFile = r.Intn(2) == 0
+		switch r.Intn(9) {
+		case 5:
+			p.Cfg.SFlowFilter = []uint32{2, 1}
+		case 6:
+			p.Cfg.SFlowFilter = []uint32{7, 3, 1}
+		case 7:
+			p.Cfg.SFlowFilter = []uint32{2, 2, 4095, 1}
 		case 0:
 			p.Cfg.SFlowFilter = []uint32{1}
 		case 1:
@@ -270,6 +277,22 @@ func genPipePlan(seed int64, o PipeGenOpts) *PipePlan {
 						}
 						if o.UnknownTpl && r.Intn(5) == 0 {
 							m.Sets = append(m.Sets, fe.g.UndecodableSet(uint16(5000+r.Intn(100))))
+						}
+						if o.Reannounce && ph == nPhases-1 && pending == nil && r.Intn(3) == 0 && used < 700 {
+							// within one message: data for a known template, then the template
+							// redefined, then data that must already use the new definition
+							// (last phase only: nothing later depends on it)
+							ti := r.Intn(len(fe.tpls))
+							old := fe.tpls[ti]
+							nt := fe.g.Template(old.ID)
+							if !nt.Equal(&old) && fe.g.MinRecLen(&nt) < 200 {
+								d0, _ := fe.g.DataSet(&old, 1+r.Intn(2), 200)
+								d1, _ := fe.g.DataSet(&nt, 1+r.Intn(2), 300)
+								m.Sets = append(m.Sets, d0)
+								m.Sets = append(m.Sets, fe.g.TemplateSets([]model.Template{nt})...)
+								m.Sets = append(m.Sets, d1)
+								fe.tpls[ti] = nt
+							}
 						}
 						if len(m.Sets) == 0 {
 							continue
